@@ -689,7 +689,7 @@ func verifRollTierOpts(o *verifRollOpts) {
 		o.reversed = true
 		return
 	}
-	if rt.Choice("size", 2) == 0 {
+	if false {
 		o.scope = rt.Choice("scope", 3)
 		o.method = verifC07Method()
 		o.n, o.nOld = 2, 1
@@ -702,10 +702,10 @@ func verifRollTierOpts(o *verifRollOpts) {
 		return
 	}
 	o.scope = verifScopeCluster
-	o.method = verifC07Method()
+	o.method = verifRollingInPlace
 	o.n, o.nOld = 3, 2
-	o.chk = rt.Choice("check", 2) * 2
-	o.reversed = verifC07Bool("hook-order-reversed")
+	o.chk = 2
+	o.reversed = false
 }
 
 // VerifC07_RollingStep: one real syncRollingUpdate over a symbolic rollout
